@@ -75,9 +75,9 @@ CASES = [
          edits=[dict(file=SB, old="        self.raw_output = \"\"\n        self.output.clear()\n        return self",
                      new="        self.raw_output = \"\"\n        self.output.clear()\n        self._current_stdout.clear()\n        return self")]),
     dict(name='stdout-assigned-directly', kind='mutant', rule='R4', key='sys.stdout',
-         edits=[dict(file=SB, old="            patch('sys.stdout', self._current_stdout[-1]),\n", new="")]),
+         edits=[dict(file=SB, old="            patch('sys.stdout', captured_stdout),\n", new="")]),
     dict(name='stdout-patched-with-fresh-buffer', kind='mutant', rule='R4', key='top-of-stack',
-         edits=[dict(file=SB, old="patch('sys.stdout', self._current_stdout[-1])", new="patch('sys.stdout', io.StringIO())")]),
+         edits=[dict(file=SB, old="patch('sys.stdout', captured_stdout)", new="patch('sys.stdout', io.StringIO())")]),
     dict(name='sys-modules-written-directly', kind='mutant', rule='R4', key='sys.modules',
          edits=[dict(file=SB, old="        self._module_overrides['__builtins__'] = builtins\n        # Handle allowing",
                      new="        self._module_overrides['__builtins__'] = builtins\n        sys.modules['pedal'] = overridden_modules.get('pedal')\n        # Handle allowing")]),
